@@ -3,7 +3,7 @@
    regenerated from x/format/format.go and cl/builtin.go on every run).  Proofs in Proofs/C25.v. *)
 From Coq Require Import List NArith ZArith Bool String Ascii.
 Import ListNotations.
-From V Require Import Base.Prelude Gen.C25 Model.C25 Proofs.C25.
+From V Require Import Base.Prelude Gen.C25 Model.C25 Proofs.C25 Proofs.C25Del.
 
 (* Table obligation (K-gen): every (fmt function, builtin spelling) pair of printFuncs is
    (exported, not exported), and the XGo builtin the formatter substitutes -- after the println -> echo
@@ -18,16 +18,29 @@ Theorem C25_scope_tracking_invisible : forall ds, imports_first ds = true ->
   fst (gopstyle_decls ds) = map (t_decl (imports_of ds)) ds.
 Proof. exact gopstyle_decls_ok. Qed.
 
-(* PRESERVATION.  Full statement (not proved in this form):
-     forall p n tr, imports_first (pdecls p) = true -> no_shadow p = true -> no_builtin_clash p = true ->
-       no_case_twin p = true -> run n Go p = Ok tr -> run n XGo (gopstyle p) = Ok tr.
-   Proved: the same for gopstyle_keep, i.e. for the converted tree BEFORE the deletion of an fmt import
-   that is no longer used (the last step of formatFile).  What is missing is the lemma that evaluation
-   never looks up a deleted import (every selector base left in the tree is marked used). *)
-Theorem C25_gopstyle_preserves_partial : forall p n tr,
+(* PRESERVATION.  For every MiniGo program whose imports come first, in which no variable, parameter or
+   receiver is named like an import (no_shadow), no variable, parameter, receiver or function is named
+   like a builtin the formatter substitutes (no_builtin_clash), and no type has both a method M and its
+   lower-case twin (no_case_twin):  if the Go program runs to completion with trace tr (any fuel n), the
+   converted program -- fmt.X -> builtin, selector calls lower-cased, function literal arguments ->
+   lambdas, command style, main unwrapped, unused fmt import deleted -- evaluated with XGo's name
+   resolution runs to completion with the same trace. *)
+Theorem C25_gopstyle_preserves : forall p n tr,
+  imports_first (pdecls p) = true -> no_shadow p = true -> no_builtin_clash p = true -> no_case_twin p = true ->
+  run n Go p = Ok tr -> run n XGo (gopstyle p) = Ok tr.
+Proof. exact gopstyle_preserves. Qed.
+
+(* the two halves: the converted tree before the deletion of the unused fmt import ... *)
+Theorem C25_gopstyle_keep_preserves : forall p n tr,
   imports_first (pdecls p) = true -> no_shadow p = true -> no_builtin_clash p = true -> no_case_twin p = true ->
   run n Go p = Ok tr -> run n XGo (gopstyle_keep p) = Ok tr.
 Proof. exact gopstyle_keep_preserves. Qed.
+
+(* ... and the deletion itself is invisible to evaluation (every selector base left in the tree is
+   marked used or is not an import): for both resolution modes, all results including failures *)
+Theorem C25_deletion_invisible : forall p n md, imports_first (pdecls p) = true -> no_shadow p = true ->
+  run n md (gopstyle p) = run n md (gopstyle_keep p).
+Proof. exact deletion_invisible. Qed.
 
 (* ---------------------------------------------------------------- concrete programs *)
 
@@ -134,9 +147,15 @@ Proof.
   eexists. split; [vm_compute; reflexivity|]. split; [reflexivity|]. split; vm_compute; reflexivity.
 Qed.
 
+(* the theorem applied: no evaluation of the converted program needed *)
+Example C25_example_by_theorem : forall t, run 40 Go ex_ok = Ok t -> run 40 XGo (gopstyle ex_ok) = Ok t.
+Proof. intros t H. apply C25_gopstyle_preserves; try (vm_compute; reflexivity). exact H. Qed.
+
 Print Assumptions C25_tables_ok.
 Print Assumptions C25_scope_tracking_invisible.
-Print Assumptions C25_gopstyle_preserves_partial.
+Print Assumptions C25_gopstyle_preserves.
+Print Assumptions C25_gopstyle_keep_preserves.
+Print Assumptions C25_deletion_invisible.
 Print Assumptions C25_gopstyle_refuted_case_twin.
 Print Assumptions C25_gopstyle_refuted_shadow.
 Print Assumptions C25_gopstyle_refuted_builtin_clash.
